@@ -37,18 +37,18 @@ Definition macro_expand (line : N) (name : str) (ops : list iop) (st : pstate) :
           non_empty (segs r))
   end.
 
-(** pass0_internal, on fuel = macro nesting depth *)
+(** pass0_internal; [depth] = how many more levels of macro calls may be entered (MAX_MACRO_DEPTH = 64) *)
 Fixpoint pass0_items (depth : nat) : list ((N * N) * item) -> pstate -> res pstate :=
-  match depth with
-  | O => fun _ _ => OutOfFuel
-  | S d =>
-      fix go (its : list ((N * N) * item)) (st : pstate) : res pstate :=
-        match its with
-        | [] => Ok st
-        | (cp, it) :: rest =>
-            do st1 <-
-              match it with
-              | IInstr (OCustom name) ops =>
+  fix go (its : list ((N * N) * item)) (st : pstate) : res pstate :=
+    match its with
+    | [] => Ok st
+    | (cp, it) :: rest =>
+        do st1 <-
+          match it with
+          | IInstr (OCustom name) ops =>
+              match depth with
+              | O => Err (Some (fst cp))
+              | S d =>
                   do es <- macro_expand (fst cp) name ops st;
                   let '(st0, segments) := es in
                   match segments with
@@ -66,11 +66,11 @@ Fixpoint pass0_items (depth : nat) : list ((N * N) * item) -> pstate -> res psta
                                    | _ => Ok (add_segment a sg)
                                    end) more (Ok st2)
                   end
-              | _ => Ok (push_item st cp it)
-              end;
-            go rest st1
-        end
-  end.
+              end
+          | _ => Ok (push_item st cp it)
+          end;
+        go rest st1
+    end.
 
 (** build_pass_0 *)
 Definition pass0 (depth : nat) (parsed : list segment) (st0 : pstate) : res pstate :=
@@ -85,7 +85,8 @@ End Pass0.
 (** ---------------- u32 arithmetic of the passes (debug profile: overflow panics) ---------------- *)
 Definition two32 : N := 4294967296.
 Definition add32 (a b : N) : res N := if a + b <? two32 then Ok (a + b) else Panic.
-Definition mul32 (a b : N) : res N := if a * b <? two32 then Ok (a * b) else Panic.
+(** pass 1: [advance] - the counter must stay inside the 32-bit address space, else an error naming the line *)
+Definition advance (line : N) (a b : N) : res N := if a + b <? two32 then Ok (a + b) else Err (Some line).
 Definition as_u32 (z : Z) : N := Z.to_N (z mod 4294967296).
 Definition as_i32 (n : N) : Z := let m := Z.of_N (n mod two32) in if (m <? 2147483648)%Z then m else (m - 4294967296)%Z.
 
@@ -111,7 +112,7 @@ Definition pass1_item (t : segt) (st : ctx * N * list ((N * N) * item)) (ci : (N
       end
   | IInstr op _ =>
       match t with
-      | SCode => do a <- add32 cur (fst (op_info (is_avr8l (dev c)) op)); Ok (c, a, keep)
+      | SCode => do a <- advance line cur (fst (op_info (is_avr8l (dev c)) op)); Ok (c, a, keep)
       | _ => Err (Some line)
       end
   | ISet _ _ | IDef _ _ | IUndef _ => Ok (c, cur, keep)
@@ -119,22 +120,22 @@ Definition pass1_item (t : segt) (st : ctx * N * list ((N * N) * item)) (ci : (N
       match t with
       | SCode =>
           let l' := if actual_len l mod 2 =? 1 then (l ++ [PE (EConst 0)])%list else l in
-          do a <- add32 cur (actual_len l' / 2); Ok (c, a, (out ++ [(cp, IData Db l')])%list)
-      | SEeprom => do a <- add32 cur (actual_len l); Ok (c, a, keep)
+          do a <- advance line cur (actual_len l' / 2); Ok (c, a, (out ++ [(cp, IData Db l')])%list)
+      | SEeprom => do a <- advance line cur (actual_len l); Ok (c, a, keep)
       | SData => Err (Some line)
       end
   | IData k l =>
       let size := match k with Dw => 2 | Dd => 4 | _ => 8 end in
       match t with
-      | SCode => do m <- mul32 (N.of_nat (length l)) (size / 2); do a <- add32 cur m; Ok (c, a, keep)
-      | SEeprom => do m <- mul32 (N.of_nat (length l)) size; do a <- add32 cur m; Ok (c, a, keep)
+      | SCode => do a <- advance line cur (N.of_nat (length l) * (size / 2)); Ok (c, a, keep)
+      | SEeprom => do a <- advance line cur (N.of_nat (length l) * size); Ok (c, a, keep)
       | SData => Err (Some line)
       end
   | IReserve n =>
       match t with
       | SCode => Err (Some line)
-      | SData => do a <- add32 cur (as_u32 n); Ok (c, a, out)
-      | SEeprom => do a <- add32 cur (as_u32 n); Ok (c, a, keep)
+      | SData => if (n <? 0)%Z then Err (Some line) else do a <- advance line cur (Z.to_N n); Ok (c, a, out)
+      | SEeprom => if (n <? 0)%Z then Err (Some line) else do a <- advance line cur (Z.to_N n); Ok (c, a, keep)
       end
   | IPragma _ => Ok (c, cur, out)
   end.
@@ -160,8 +161,12 @@ Definition pass1 (c : ctx) (segments : list segment) : res p1 :=
                   | SEeprom => (c1, co, dofs, fin, (out ++ [sg'])%list)
                   end))
            segments (Ok (c, 0, ram_start d, 0, []));
-  let '(c', _, dofs, _, out) := r in
-  Ok {| p1_segs := out; p1_ram := dofs - ram_start d; p1_ctx := c' |}.
+  let '(c', co, dofs, eo, out) := r in
+  (* the layout is known: a program that cannot fit the device is refused before pass 2 *)
+  if flash_size d <? co then Err None
+  else if eeprom_size d <? eo then Err None
+  else if ram_size d <? dofs - ram_start d then Err None
+  else Ok {| p1_segs := out; p1_ram := dofs - ram_start d; p1_ctx := c' |}.
 
 (** ---------------- pass 2 ---------------- *)
 Definition ctx_set_pc (c : ctx) (a : N) : ctx :=
@@ -301,7 +306,7 @@ Record build_result := {
 Definition build_from_parsed (fuel : nat) (include_file : str -> pstate -> res pstate) (st : pstate) : res build_result :=
   let parsed := non_empty (segs st) in
   let st0 := {| segs := []; macro_name := []; macros := []; msgs := msgs st; pcx := pcx st |} in
-  do s0 <- pass0 fuel include_file (macros st) fuel parsed st0;
+  do s0 <- pass0 fuel include_file (macros st) 64 parsed st0;
   do r1 <- pass1 (pcx s0) (non_empty (segs s0));
   do r2 <- pass2 fuel (p1_ctx r1) (p1_segs r1);
   let d := dev (p2_ctx r2) in
